@@ -185,6 +185,18 @@ func C03(c *ev.Ctx) {
 			}
 			_ = os.RemoveAll(dir)
 			liveViolated := strings.Contains(r.Out, "Temporal properties were violated") || strings.Contains(r.Out, "Temporal property Terminates was violated")
+			if r.TimedOut && p.Deterministic {
+				// the exploration did not finish (unbounded state space?), but every outcome printed so far is a reachable
+				// final state of the emitted program: one that Go cannot produce is a violation already
+				for _, o := range outs {
+					b, _ := json.Marshal(normTLA(o.Res))
+					if o.St == "stuck" || !G[string(b)] {
+						c.Report("c03."+p.Key, fmt.Sprintf("concurrent program %s: the exploration was cut off after %d states, but it already reached the final outcome %s (%s %s); Go only produces %v", p.Key, r.Distinct, string(b), o.St, o.Why, keysList(G)),
+							map[string]string{"gen.go": p.Source, "emitted.v": text})
+						break
+					}
+				}
+			}
 			if err != nil || r.TimedOut || (r.TLCError && !liveViolated) {
 				c.Inconclusive("TLC did not complete on %s (%d states): %s", p.Key, r.Distinct, tlc.Tail(r.Out, 12))
 				outcomesEv[p.Key] = "inconclusive"
